@@ -114,7 +114,7 @@ public:
 	return false;
       }
     string dest_dir(args[1]);
-    if (dest_dir.back() != '/')
+    if (dest_dir.empty() || dest_dir.back() != '/')
       dest_dir.push_back('/');
 
     std::string error;
